@@ -36,6 +36,9 @@ def one_case(args):
     beh = G.gen_behaviour(rng)
     if not beh['files'] and rng.random() < 0.7:
         beh['files']['out.txt'] = (True, b'alpha\nbeta\n')
+    if beh['files'] and i % 6 == 2:
+        # one output is a symbolic link to a file kept elsewhere (its content is what the test must watch)
+        beh['link'] = [sorted(beh['files'])[0]]
     G.write_command(d, beh)
     flags = ['-Z'] if beh['code'] != 0 else []
     if rng.random() < 0.25:
